@@ -338,6 +338,9 @@ def run(cx):
     from props.C03 import check_parser
     check_parser(cx, "C16.g")
     obligations += len(cx.instances[-1].sites)
+    from props.shared import writer_loops_unconditional
+    writer_loops_unconditional(cx, "C16.h")
+    obligations += len(cx.instances[-1].sites)
     cx.extra["obligations"] = obligations + cx.extra.get("bit_obligations", 0)
 
 
